@@ -2,7 +2,10 @@
 
 package jtp
 
-import "time"
+import (
+	"net"
+	"time"
+)
 
 // VerifPurgeCache empties the process-wide response cache.
 func VerifPurgeCache() {
@@ -13,3 +16,7 @@ func VerifPurgeCache() {
 
 func VerifSetTimeout(d time.Duration) { dialer.Timeout = d }
 func VerifTimeout() time.Duration     { return dialer.Timeout }
+
+// VerifSetResolver makes the dialer resolve names through r (Env-A: an in-process DNS
+// responder that answers every name with 127.0.0.1).
+func VerifSetResolver(r *net.Resolver) { dialer.Resolver = r }
